@@ -845,7 +845,9 @@ export class RegexRuntype extends BaseRuntype {
 
   constructor(metadata: RuntypeMetadata | undefined, regex: RegExp, description: string) {
     super(metadata);
-    this.regex = regex;
+    // a template literal type describes the whole string, so the emitted pattern is anchored
+    // (dotAll: `${string}` spans line terminators too)
+    this.regex = new RegExp(`^(?:${regex.source})$`, "s");
     this.description = description;
   }
 
